@@ -8,7 +8,7 @@ trap 'git -C /repo checkout -- . ; exit 1' INT TERM
 grep -v '^#' seeded/EXPECT.txt | while read name checks; do
   [ -n "$name" ] || continue
   if [ $# -gt 0 ]; then case " $* " in *" $name "*) ;; *) continue;; esac; fi
-  git -C /repo apply --whitespace=nowarn seeded/$name/patch.diff || { echo "$name: patch does not apply"; continue; }
+  git -C /repo apply --whitespace=nowarn /verif/seeded/$name/patch.diff || { echo "$name: patch does not apply"; continue; }
   for p in $checks; do
     out=$(timeout 3000 ./check $p 2>&1 | grep -v "^KNOWN-FINDING" | tail -3 | tr '\n' ' ' | cut -c1-400)
     echo "$name $p: $out"
